@@ -827,6 +827,7 @@ func (fr *Frame) execInstr(in ssa.Instruction, st *State) {
 	case *ssa.Go:
 		fr.execGo(in, st)
 	case *ssa.Send:
+		fr.lockWait(in, st, "channel send")
 		fc.note("channel send modelled as no-op on the heap")
 	case *ssa.Select:
 		fr.execSelect(in, st)
@@ -943,6 +944,7 @@ func (fr *Frame) execUnOp(in *ssa.UnOp, st *State) {
 		fr.env[in] = scalar(r)
 	case token.ARROW:
 		// channel receive: arbitrary value
+		fr.lockWait(in, st, "channel receive")
 		fc.note("channel receive yields an arbitrary value; blocking not modelled")
 		if in.CommaOk {
 			v := fc.freshVal("recv", in.Type().(*types.Tuple).At(0).Type())
@@ -1492,6 +1494,9 @@ func (fc *FnCtx) ghostInt(st *State, name string) *Term {
 
 func (fr *Frame) execSelect(in *ssa.Select, st *State) {
 	fc := fr.fc
+	if in.Blocking {
+		fr.lockWait(in, st, "select")
+	}
 	fc.note("select: nondeterministic ready case, received values arbitrary")
 	tup := in.Type().(*types.Tuple)
 	idx := fc.sc.Fresh("selidx", SInt)
@@ -1643,4 +1648,23 @@ func balanced(s string) bool {
 		}
 	}
 	return depth == 0
+}
+
+
+// lockWait: a blocking wait (channel receive / send, blocking select, WaitGroup.Wait, time.Sleep) while holding a lock
+// this function took itself makes every other user of that lock wait as long: obligation that the lock set is
+// what it was on entry. (Locks the CALLER holds are the caller's obligation.)
+func (fr *Frame) lockWait(site ssa.Instruction, st *State, what string) {
+	fc := fr.fc
+	var conj []*Term
+	if h, ok := st.ghosts["held"]; ok {
+		conj = append(conj, Eq(h, fc.ghostInit("held", h.Sort)))
+	}
+	if h, ok := st.ghosts["rheld"]; ok {
+		conj = append(conj, Eq(h, fc.ghostInit("rheld", h.Sort)))
+	}
+	if len(conj) == 0 {
+		return
+	}
+	fc.oblige(st, "lock-wait", fr.path, And(conj...), fr.pos(site), "no lock taken by this function is held across a blocking wait ("+what+")")
 }
